@@ -91,6 +91,29 @@ def _refused_delete(author):
     return ['NOT refused']
 
 
+def _tag(objs, label): return next(t for t in objs['tags'] if t.label == label)
+
+
+def _pending_then_assign(objs, kind):
+    t0, t1, t2, t3 = (_tag(objs, 't%d' % i) for i in range(4))
+    b0, b1, b4 = _by(objs['books'], 'b0'), _by(objs['books'], 'b1'), _by(objs['books'], 'b4')
+    first = sorted(nm(b) for b in t0.books)                      # one complete load: later loads of Tag.books may be done for several tags at once
+    if kind == 'add': t1.books.add(b4 if b4 not in t1.books else b0)                # a pending addition on a collection that is only partly known
+    else: t1.books.remove(next(iter(sorted(t1.books.copy(), key=lambda b: b.title))))       # (copy() loads it; the removal stays pending)
+    t2.books = [b0, b1]                                          # assignment loads t2.books with automatic flushing switched off
+    return first, [(t.label, sorted(nm(b) for b in t.books), t.books.count(), len(t.books)) for t in (t0, t1, t2, t3)], sorted(nm(t) for t in b0.tags)
+
+
+def _pending_then_read(objs):
+    t0, t1, t2, t3 = (_tag(objs, 't%d' % i) for i in range(4))
+    b0, b2, b5 = _by(objs['books'], 'b0'), _by(objs['books'], 'b2'), _by(objs['books'], 'b5')
+    a0, a1 = _byname(objs['authors'], 'a0'), _byname(objs['authors'], 'a1')
+    len(t0.books)
+    t1.books.add(b5); b2.tags.add(t3); b0.author = a1; a0.pupils.add(a1)
+    return ([(t.label, sorted(nm(b) for b in t.books), t.books.is_empty()) for t in (t3, t2, t1, t0)], [(a.name, sorted(nm(b) for b in a.books), sorted(nm(p) for p in a.pupils), nm(a.mentor)) for a in sorted(objs['authors'], key=lambda a: a.id)],
+            [(b.title, sorted(nm(t) for t in b.tags), nm(b.author)) for b in sorted(objs['books'], key=lambda b: b.id)])
+
+
 def nm(o): return None if o is None else getattr(o, 'name', None) or getattr(o, 'title', None) or getattr(o, 'label', None) or getattr(o, 'text', None)
 
 
@@ -115,6 +138,10 @@ PROGRAMS = {
     'after_refused_delete_observed_first': lambda M, objs: ([(a.books.count(), a.pupils.count(), sorted(nm(p) for p in a.pupils)) for a in objs['authors']], _refused_delete(_byname(objs['authors'], 'a1')),
                                              [(a.name, sorted(nm(b) for b in a.books), a.books.count(), len(a.books), sorted(nm(p) for p in a.pupils), a.pupils.count(), a.pupils.is_empty(), nm(a.mentor))
                                               for a in objs['authors']]),
+    # programs that MODIFY collections before reading on: pending (unflushed) additions / removals of one object meet the loading of other objects' collections
+    'pending_add_then_assign': lambda M, objs: _pending_then_assign(objs, 'add'),
+    'pending_remove_then_assign': lambda M, objs: _pending_then_assign(objs, 'remove'),
+    'pending_changes_then_read_everything': lambda M, objs: _pending_then_read(objs),
     'lazy_attributes_only': lambda M, objs: ([(a.bio, a.name) for a in objs['authors']], [(b.notes, b.title, getattr(b, 'edition', '-')) for b in objs['books']]),
 }
 VARIANTS = ('default', 'lazy', 'no_batch', 'batch_at_once', 'tiny_batches')
@@ -148,6 +175,7 @@ def observe(variant, strategy, program):
             if strategy == 'reverse_order':
                 rev = {k: list(reversed(v)) for k, v in objs.items()}
                 r = PROGRAMS[program](M, rev)
+                if program.startswith('pending_'): return tuple(r)          # these programs pick their objects by name: their output does not follow the order of the lists
                 return tuple(list(reversed(part)) if len(part) != 1 else part for part in r)
             return tuple(PROGRAMS[program](M, objs))
         finally:
@@ -178,5 +206,5 @@ CONTRACTS = [
     Contract('same_observations', ['pony.orm.core:Set.load', 'pony.orm.core:Query.prefetch', 'pony.orm.core:Query._do_prefetch', 'pony.orm.core:Set.prefetch_load_all',
                                    'pony.orm.core:Entity._prefetch_load_all_', 'pony.orm.core:Entity._load_', 'pony.orm.core:EntityMeta._load_many_', 'pony.orm.core:Attribute.load'],
              _configs, _case, [('every_loading_strategy_observes_the_baseline_data', lambda cfg, i, path: path.outcome == 'ret' and path.value == [])], level='bounded',
-             bound='5 model variants x 5 loading strategies x 9 observation programs (two of them read after a refused delete) on one stored data set'),
+             bound='5 model variants x 5 loading strategies x 12 observation programs (two of them read after a refused delete, three after pending collection changes) on one stored data set'),
 ]
